@@ -307,11 +307,18 @@ def run_pam_case(spec, prepared=None):
             d.update(extra)
         return d
     rec_l, rec_r = H.Rec(), H.Rec()
-    asyncio.run(SetModelPass(model).run(c, data))
-    if spec['placement'] == 'greedy':
-        asyncio.run(GreedyPlacementPass().run(c, data))
-    else:
-        data.placement = list(spec['custom_placement'])
+    try:
+        asyncio.run(SetModelPass(model).run(c, data))
+        if spec['placement'] == 'greedy':
+            asyncio.run(GreedyPlacementPass().run(c, data))
+        else:
+            data.placement = list(spec['custom_placement'])
+    except (RuntimeError, ValueError, TypeError, IndexError, KeyError, AssertionError) as e:
+        res['raised'] = ('placement', type(e).__name__, str(e)[:200])
+        res['viol'].append((f'unexpected-{type(e).__name__}-in-placement',
+                            f'placement raised {type(e).__name__}: {str(e)[:150]} on a '
+                            'connected machine', rep({'raised': str(e)[:200]}), True))
+        return res
     snap['P'] = list(data.placement)
     layout = PAMLayoutPass(spec['layout'], spec['gcw'], **kw) if spec['layout'] else None
     routing = PAMRoutingPass(spec['gcw'], **kw)
